@@ -30,6 +30,7 @@ import (
 	"math"
 	"os"
 	"path/filepath"
+	"reflect"
 	"regexp"
 	"sort"
 	"strconv"
@@ -61,6 +62,7 @@ type vEntry struct {
 	Rev      uint64 `json:"rev"`
 	Data     string `json:"data"`
 	Addr     string `json:"addr"`
+	Ext      string `json:"ext"` // raft.Log.Extensions
 }
 
 type vStep struct {
@@ -68,6 +70,7 @@ type vStep struct {
 	I   uint64 `json:"i"`
 	Now int64  `json:"now"` // compaction time, UnixNano (SnapshotTake)
 	K   int    `json:"k"`   // PersistFail: the sink fails once k bytes were written
+	Enc string `json:"enc"` // RestartEnc: "proto" | "json", the value of -pre1.0_protobuf of the new process
 }
 
 type vSchedule struct {
@@ -84,6 +87,20 @@ type vSchedule struct {
 	Prestore int `json:"prestore"`
 	// Lenient: steps that are not enabled are skipped (random schedules)
 	Lenient bool `json:"lenient"`
+	// ConvDump (with Resume): this process start is the encoding migration of the node
+	// (the stores were written by a process with the other encoding): the raw content of
+	// both stores is recorded before they are opened (= converted) and after
+	ConvDump bool `json:"convdump"`
+}
+
+// vConv: raw content of the raft log store and of the irclog before and after the
+// conversion which NewLevelDBStore runs when the node starts with another encoding
+type vConv struct {
+	Enc      string    `json:"enc"`
+	RaftPre  []vRawRec `json:"raft_pre"`
+	RaftPost []vRawRec `json:"raft_post"`
+	IrcPre   []vRawRec `json:"irc_pre"`
+	IrcPost  []vRawRec `json:"irc_post"`
 }
 
 type vAbs struct {
@@ -111,7 +128,12 @@ type vSnap struct {
 	Retained   []uint64 `json:"retained"`
 	RetainedOK bool     `json:"retained_ok"` // retained entries equal the raft log's entries
 	Err        string   `json:"err,omitempty"`
+	Fmt        string   `json:"fmt"`  // container: "proto" | "json"
+	Renc       []vEnc   `json:"renc"` // encoding of every retained record
 }
+
+// vEnc: [key, envelope encoding, payload encoding] of one stored value
+type vEnc [3]interface{}
 
 type vPost struct {
 	Applied uint64   `json:"applied"`
@@ -123,6 +145,9 @@ type vPost struct {
 	Srv     *vAbs    `json:"srv,omitempty"`
 	Exp     int64    `json:"exp"` // fsm.sessionExpirationDur, ns
 	Pending *vPend   `json:"pending,omitempty"`
+	Enc     string   `json:"enc"`  // *useProtobuf of the running process
+	Renc    []vEnc   `json:"renc"` // raft log store, every value
+	Ienc    []vEnc   `json:"ienc"` // irclog, every value
 }
 
 type vPend struct {
@@ -159,6 +184,7 @@ type vEvent struct {
 	Info  string    `json:"info,omitempty"`
 	Raw   []vRawRec `json:"raw,omitempty"`
 	Final *vFinal   `json:"final,omitempty"`
+	Conv  *vConv    `json:"conv,omitempty"`
 }
 
 // vFinal: outcome of the state-changing probes run once at the end of a schedule
@@ -208,9 +234,69 @@ func vRaftLog(e vEntry, useProto bool) *raft.Log {
 		if t == raft.LogCommand {
 			t = raft.LogNoop
 		}
-		return &raft.Log{Index: e.Idx, Term: 1, Type: t}
+		return &raft.Log{Index: e.Idx, Term: 1, Type: t, Extensions: vExt(e)}
 	}
-	return &raft.Log{Index: e.Idx, Term: 1, Type: raft.LogCommand, Data: vEncode(vMsg(e, false), useProto)}
+	return &raft.Log{Index: e.Idx, Term: 1, Type: raft.LogCommand, Data: vEncode(vMsg(e, false), useProto), Extensions: vExt(e)}
+}
+
+func vExt(e vEntry) []byte {
+	if e.Ext == "" {
+		return nil
+	}
+	return []byte(e.Ext)
+}
+
+func vEncName(useProto bool) string {
+	if useProto {
+		return "proto"
+	}
+	return "json"
+}
+
+// vEncOfValue classifies one stored value (its own decoder, not raftlog.FromBytes):
+// envelope and payload encoding, "none" for a raft-internal entry.
+func vEncOfValue(val []byte) (env, data string, err error) {
+	var typ raft.LogType
+	var payload []byte
+	if len(val) > 0 && val[0] == 'p' {
+		env = "proto"
+		var p pb.RaftLog
+		if err := proto.Unmarshal(val[1:], &p); err != nil {
+			return env, "", err
+		}
+		typ, payload = raft.LogType(p.Type), p.Data
+	} else {
+		env = "json"
+		var l raft.Log
+		if err := json.Unmarshal(val, &l); err != nil {
+			return env, "", err
+		}
+		typ, payload = l.Type, l.Data
+	}
+	if typ != raft.LogCommand {
+		return env, "none", nil
+	}
+	if len(payload) > 0 && payload[0] == 'p' {
+		return env, "proto", nil
+	}
+	return env, "json", nil
+}
+
+func vEncsOf(st *raftstore.LevelDBStore) []vEnc {
+	res := []vEnc{}
+	it := st.GetBulkIterator(0, math.MaxUint64)
+	defer it.Release()
+	for ok := it.First(); ok; ok = it.Next() {
+		if len(it.Key()) != 8 {
+			continue
+		}
+		env, data, err := vEncOfValue(it.Value())
+		if err != nil {
+			data = "undecodable"
+		}
+		res = append(res, vEnc{binary.BigEndian.Uint64(it.Key()), env, data})
+	}
+	return res
 }
 
 // ---------------------------------------------------------------- canonical state
@@ -513,6 +599,8 @@ func vProbe(srv *ircserver.IRCServer, canon *pb.Snapshot) []string {
 type vSnapContent struct {
 	state    []byte
 	retained []*raft.Log
+	fmt      string
+	renc     []vEnc
 }
 
 func vParseSnapshot(rd io.Reader) (*vSnapContent, error) {
@@ -521,8 +609,8 @@ func vParseSnapshot(rd io.Reader) (*vSnapContent, error) {
 	if err != nil {
 		return nil, err
 	}
-	c := &vSnapContent{}
-	handle := func(l *raft.Log) error {
+	c := &vSnapContent{fmt: "json", renc: []vEnc{}}
+	handle := func(l *raft.Log, env string) error {
 		msg := robust.NewMessageFromBytes(l.Data, robust.IdFromRaftIndex(l.Index))
 		if msg.Type == robust.State {
 			st, err := base64.StdEncoding.DecodeString(msg.Data)
@@ -533,9 +621,15 @@ func vParseSnapshot(rd io.Reader) (*vSnapContent, error) {
 			return nil
 		}
 		c.retained = append(c.retained, l)
+		data := "json"
+		if len(l.Data) > 0 && l.Data[0] == 'p' {
+			data = "proto"
+		}
+		c.renc = append(c.renc, vEnc{l.Index, env, data})
 		return nil
 	}
 	if first[0] == 'p' {
+		c.fmt = "proto"
 		b.ReadByte()
 		for {
 			var lenbuf [8]byte
@@ -556,7 +650,7 @@ func vParseSnapshot(rd io.Reader) (*vSnapContent, error) {
 			if err := proto.Unmarshal(buf[1:], &p); err != nil {
 				return nil, err
 			}
-			if err := handle(&raft.Log{Index: p.Index, Term: p.Term, Type: raft.LogType(p.Type), Data: p.Data}); err != nil {
+			if err := handle(&raft.Log{Index: p.Index, Term: p.Term, Type: raft.LogType(p.Type), Data: p.Data}, "proto"); err != nil {
 				return nil, err
 			}
 		}
@@ -571,7 +665,7 @@ func vParseSnapshot(rd io.Reader) (*vSnapContent, error) {
 			}
 			return nil, err
 		}
-		if err := handle(&l); err != nil {
+		if err := handle(&l, "json"); err != nil {
 			return nil, err
 		}
 	}
@@ -593,12 +687,14 @@ type vNode struct {
 	ref         *vRef
 	byIdx       map[uint64]vEntry
 	snapCache   map[string]*vSnapContent
+	proto       bool   // *useProtobuf of the running process
+	conv        *vConv // set by a RestartEnc step, collected by the driver
 }
 
 func (n *vNode) open() error {
 	*raftDir = n.dir
 	*network = vNetwork
-	*useProtobuf = n.s.Proto
+	*useProtobuf = n.proto
 	if err := outputstream.DeleteOldDatabases(n.dir); err != nil {
 		return err
 	}
@@ -612,11 +708,11 @@ func (n *vNode) open() error {
 	if err != nil {
 		return err
 	}
-	n.logstore, err = raftstore.NewLevelDBStore(filepath.Join(n.dir, "raftlog"), false, n.s.Proto)
+	n.logstore, err = raftstore.NewLevelDBStore(filepath.Join(n.dir, "raftlog"), false, n.proto)
 	if err != nil {
 		return err
 	}
-	ircStore, err = raftstore.NewLevelDBStore(filepath.Join(n.dir, "irclog"), false, n.s.Proto)
+	ircStore, err = raftstore.NewLevelDBStore(filepath.Join(n.dir, "irclog"), false, n.proto)
 	if err != nil {
 		return err
 	}
@@ -720,7 +816,7 @@ func (n *vNode) step(st vStep) (errs string) {
 			if !ok {
 				return fmt.Sprintf("harness: no entry %d", st.I)
 			}
-			if err := n.logstore.StoreLogs([]*raft.Log{vRaftLog(e, n.s.Proto)}); err != nil {
+			if err := n.logstore.StoreLogs([]*raft.Log{vRaftLog(e, n.proto)}); err != nil {
 				return "StoreLogs: " + err.Error()
 			}
 			n.stored = st.I
@@ -798,11 +894,60 @@ func (n *vNode) step(st vStep) (errs string) {
 		if err := n.startup(); err != nil {
 			return "startup: " + err.Error()
 		}
+	case "RestartEnc":
+		// the node is stopped and started with the other value of -pre1.0_protobuf:
+		// robustirc.go opens both stores with the new flag (NewLevelDBStore converts
+		// them), then raft starts (Restore(newest snapshot), replay of the raft log)
+		want := st.Enc == "proto"
+		if want == n.proto || !want {
+			if n.s.Lenient {
+				return "skip: no migration from " + vEncName(n.proto) + " to " + st.Enc
+			}
+			return "harness: no migration from " + vEncName(n.proto) + " to " + st.Enc
+		}
+		n.closeStores()
+		n.logstore, n.fsm = nil, nil
+		conv := &vConv{Enc: st.Enc}
+		var err error
+		if conv.RaftPre, conv.IrcPre, err = vDumpDir(n.dir); err != nil {
+			return "harness: dump before the conversion: " + err.Error()
+		}
+		n.proto = want
+		if err := n.open(); err != nil {
+			return "open: " + err.Error()
+		}
+		conv.RaftPost, conv.IrcPost = vRawDump(n.logstore), vRawDump(n.fsm.ircstore)
+		n.conv = conv
+		if err := n.startup(); err != nil {
+			return "startup: " + err.Error()
+		}
 	case "Tick":
 	default:
 		return "harness: unknown step " + st.A
 	}
 	return ""
+}
+
+// vSameEntry: the same entry, whatever the encoding of the two copies (a snapshot
+// written in the JSON life is compared with the converted raft log).
+func vSameEntry(a, b *raft.Log) (same bool) {
+	if a.Type != b.Type {
+		return false
+	}
+	if bytes.Equal(a.Data, b.Data) {
+		return true
+	}
+	if a.Type != raft.LogCommand {
+		return false
+	}
+	defer func() {
+		if recover() != nil {
+			same = false
+		}
+	}()
+	x := robust.NewMessageFromBytes(a.Data, robust.IdFromRaftIndex(a.Index))
+	y := robust.NewMessageFromBytes(b.Data, robust.IdFromRaftIndex(b.Index))
+	return reflect.DeepEqual(x, y)
 }
 
 func vKeys(st *raftstore.LevelDBStore) []uint64 {
@@ -821,6 +966,9 @@ func (n *vNode) observe() (*vPost, *vChk) {
 	p := &vPost{Applied: n.applied, Stored: n.stored, Lss: []vLss{}, Outs: []uint64{}, Snaps: []vSnap{}}
 	c := &vChk{OutBad: []uint64{}, RefOut: []uint64{}, StoreBad: []uint64{}}
 	p.Exp = int64(n.fsm.sessionExpiration())
+	p.Enc = vEncName(*useProtobuf)
+	p.Renc = vEncsOf(n.logstore)
+	p.Ienc = vEncsOf(n.fsm.ircstore)
 
 	// irclog
 	p.Store = vKeys(n.fsm.ircstore)
@@ -830,7 +978,7 @@ func (n *vNode) observe() (*vPost, *vChk) {
 			c.StoreBad = append(c.StoreBad, k)
 			continue
 		}
-		if err := n.logstore.GetLog(k, &b); err != nil || a.Index != b.Index || a.Type != b.Type || !bytes.Equal(a.Data, b.Data) {
+		if err := n.logstore.GetLog(k, &b); err != nil || a.Index != b.Index || !vSameEntry(&a, &b) {
 			c.StoreBad = append(c.StoreBad, k)
 		}
 	}
@@ -886,7 +1034,7 @@ func (n *vNode) observe() (*vPost, *vChk) {
 	if err == nil {
 		for i := len(metas) - 1; i >= 0; i-- {
 			m := metas[i]
-			sn := vSnap{ID: m.ID, Ridx: m.Index, Covers: []int{}, Retained: []uint64{}, RetainedOK: true}
+			sn := vSnap{ID: m.ID, Ridx: m.Index, Covers: []int{}, Retained: []uint64{}, RetainedOK: true, Renc: []vEnc{}}
 			content, ok := n.snapCache[m.ID]
 			if !ok {
 				_, rc, err := n.fss.Open(m.ID)
@@ -904,6 +1052,7 @@ func (n *vNode) observe() (*vPost, *vChk) {
 				}
 			}
 			if content != nil {
+				sn.Fmt, sn.Renc = content.fmt, content.renc
 				if d := n.ref.describe(content.state); d.err != nil {
 					sn.Err = d.err.Error()
 				} else {
@@ -912,7 +1061,7 @@ func (n *vNode) observe() (*vPost, *vChk) {
 				for _, l := range content.retained {
 					sn.Retained = append(sn.Retained, l.Index)
 					var b raft.Log
-					if err := n.logstore.GetLog(l.Index, &b); err != nil || b.Type != l.Type || !bytes.Equal(b.Data, l.Data) {
+					if err := n.logstore.GetLog(l.Index, &b); err != nil || !vSameEntry(&b, l) {
 						sn.RetainedOK = false
 					}
 				}
@@ -1105,7 +1254,7 @@ func vRunSchedule(s *vSchedule, base string, seq int, emit func(vEvent)) {
 	}
 	refdir := filepath.Join(base, fmt.Sprintf("ref-%d", seq))
 	os.MkdirAll(refdir, 0755)
-	n := &vNode{s: s, dir: dir, byIdx: map[uint64]vEntry{}, snapCache: map[string]*vSnapContent{}}
+	n := &vNode{s: s, dir: dir, byIdx: map[uint64]vEntry{}, snapCache: map[string]*vSnapContent{}, proto: s.Proto}
 	for _, e := range s.Log {
 		n.byIdx[e.Idx] = e
 	}
@@ -1117,12 +1266,26 @@ func vRunSchedule(s *vSchedule, base string, seq int, emit func(vEvent)) {
 			os.RemoveAll(dir)
 		}
 	}()
+	var conv *vConv
+	if s.Resume && s.ConvDump {
+		// this process start is the migration: what the previous process left, untouched
+		conv = &vConv{Enc: vEncName(s.Proto)}
+		var err error
+		if conv.RaftPre, conv.IrcPre, err = vDumpDir(dir); err != nil {
+			emit(vEvent{Sched: s.Name, N: -1, Ev: "HarnessError", Err: "dump before the conversion: " + err.Error()})
+			return
+		}
+	}
 	if err := n.open(); err != nil {
 		emit(vEvent{Sched: s.Name, N: -1, Ev: "HarnessError", Err: "open: " + err.Error()})
 		return
 	}
 	if s.Resume {
 		ev := vEvent{Sched: s.Name, N: -1, Ev: "Restart"}
+		if conv != nil {
+			conv.RaftPost, conv.IrcPost = vRawDump(n.logstore), vRawDump(n.fsm.ircstore)
+			ev.Ev, ev.Conv, ev.Step = "RestartEnc", conv, &vStep{A: "RestartEnc", Enc: conv.Enc}
+		}
 		func() {
 			defer func() {
 				if p := recover(); p != nil {
@@ -1148,6 +1311,10 @@ func vRunSchedule(s *vSchedule, base string, seq int, emit func(vEvent)) {
 			}
 			n.stored = s.Log[i].Idx
 		}
+		// raft keeps its stable store in the same LevelDB (keys "stablestore-..." sort
+		// after the log entries): the conversion and DeleteRange have to stop there
+		n.logstore.SetUint64([]byte("CurrentTerm"), 1)
+		n.logstore.Set([]byte("LastVoteCand"), []byte("verif"))
 		ev := vEvent{Sched: s.Name, N: -1, Ev: "Reset"}
 		ev.Post, ev.Chk = n.observe()
 		emit(ev)
@@ -1159,7 +1326,7 @@ func vRunSchedule(s *vSchedule, base string, seq int, emit func(vEvent)) {
 			// the process is expected to die inside this step: put the entry into the
 			// raft log first (as raft does) and record the store's raw content
 			if e, ok := n.byIdx[st.I]; ok && st.I > n.stored {
-				if err := n.logstore.StoreLogs([]*raft.Log{vRaftLog(e, n.s.Proto)}); err == nil {
+				if err := n.logstore.StoreLogs([]*raft.Log{vRaftLog(e, n.proto)}); err == nil {
 					n.stored = st.I
 				}
 			}
@@ -1172,6 +1339,7 @@ func vRunSchedule(s *vSchedule, base string, seq int, emit func(vEvent)) {
 				}
 			}()
 			ev.Err = n.step(st)
+			ev.Conv, n.conv = n.conv, nil
 			if strings.HasPrefix(ev.Err, "skip:") {
 				ev.Ev, ev.Info, ev.Err = "Skip", ev.Err, ""
 				return
@@ -1273,6 +1441,27 @@ type vRawRec struct {
 	StoreEnc string          `json:"store_enc"`
 	Msg      *robust.Message `json:"msg,omitempty"`
 	Err      string          `json:"err,omitempty"`
+	Ext      string          `json:"ext"`      // raft.Log.Extensions
+	Appended int64           `json:"appended"` // raft.Log.AppendedAt (UnixNano, 0 = zero time)
+}
+
+// vDumpDir dumps the raft log store and the irclog of a raftdir as they are on disk:
+// the stores are opened WITHOUT the protobuf flag, so nothing is converted.
+func vDumpDir(dir string) (raftlog, irclog []vRawRec, err error) {
+	for k, name := range []string{"raftlog", "irclog"} {
+		st, err := raftstore.NewLevelDBStore(filepath.Join(dir, name), false, false)
+		if err != nil {
+			return nil, nil, err
+		}
+		recs := vRawDump(st)
+		st.Close()
+		if k == 0 {
+			raftlog = recs
+		} else {
+			irclog = recs
+		}
+	}
+	return raftlog, irclog, nil
 }
 
 // vRawDump lists the raft log store: raw value bytes and the decoded entry.
@@ -1294,6 +1483,10 @@ func vRawDump(st *raftstore.LevelDBStore) []vRawRec {
 		} else {
 			r.RaftType = int(l.Type)
 			r.Term = l.Term
+			r.Ext = string(l.Extensions)
+			if !l.AppendedAt.IsZero() {
+				r.Appended = l.AppendedAt.UnixNano()
+			}
 			if l.Type == raft.LogCommand {
 				if len(l.Data) > 0 && l.Data[0] == 'p' {
 					r.DataEnc = "proto"
